@@ -22,7 +22,7 @@
 (***************************************************************************)
 EXTENDS Integers, Sequences, FiniteSets, TLC
 
-CONSTANTS NWorkers, Jobs, Stoppers, Runners, Variant, StartRunning,
+CONSTANTS NWorkers, Jobs, Stoppers, Runners, Cancellers, Variant, StartRunning,
           Ordered,     \* exploration only: callers start their Send in the order of the job ids (symmetry breaking)
           SpuriousTimeout  \* the timer of Send may fire although the channel has room (a descheduled goroutine)
 
@@ -39,6 +39,7 @@ VARIABLES running,     \* runM is held: the pool runs
           stopM,       \* holder of the mutex that serialises Stop calls (0 free)
           sendWg, runWg,
           spc, fpc, fjob, wpc, wjob, tpc, rpc,
+          xpc, parentCancelled,   \* callers that cancel the context Run was given, and whether that has happened
           started, executed, accepted,
           stopped,     \* a Stop has returned and no Run has succeeded since
           inflightAtStop,  \* ghost: some job was executing when a Stop returned
@@ -46,7 +47,7 @@ VARIABLES running,     \* runM is held: the pool runs
           panicked
 
 pool  == <<running, ctxnil, cancelled, chclosed, ch, el, listM, lazyM, stopM, sendWg, runWg>>
-pcs   == <<spc, fpc, fjob, wpc, wjob, tpc, rpc>>
+pcs   == <<spc, fpc, fjob, wpc, wjob, tpc, rpc, xpc, parentCancelled>>
 ghost == <<started, executed, accepted, stopped, inflightAtStop, lateStart, panicked>>
 vars  == <<pool, pcs, ghost>>
 
@@ -60,6 +61,7 @@ Init ==
   /\ spc = [j \in Jobs |-> "idle"] /\ fpc = "none" /\ fjob = 0
   /\ wpc = [w \in Workers |-> IF StartRunning THEN "idle" ELSE "none"] /\ wjob = [w \in Workers |-> 0]
   /\ tpc = [t \in Stoppers |-> "idle"] /\ rpc = [r \in Runners |-> "idle"]
+  /\ xpc = [x \in Cancellers |-> "idle"] /\ parentCancelled = FALSE
   /\ started = [j \in Jobs |-> 0] /\ executed = [j \in Jobs |-> 0] /\ accepted = {}
   /\ stopped = FALSE /\ inflightAtStop = FALSE /\ lateStart = FALSE /\ panicked = ""
 
@@ -71,6 +73,7 @@ ResetAll ==
   /\ spc' = [j \in Jobs |-> "idle"] /\ fpc' = "none" /\ fjob' = 0
   /\ wpc' = [w \in Workers |-> IF StartRunning THEN "idle" ELSE "none"] /\ wjob' = [w \in Workers |-> 0]
   /\ tpc' = [t \in Stoppers |-> "idle"] /\ rpc' = [r \in Runners |-> "idle"]
+  /\ xpc' = [x \in Cancellers |-> "idle"] /\ parentCancelled' = FALSE
   /\ started' = [j \in Jobs |-> 0] /\ executed' = [j \in Jobs |-> 0] /\ accepted' = {}
   /\ stopped' = FALSE /\ inflightAtStop' = FALSE /\ lateStart' = FALSE /\ panicked' = ""
 
@@ -83,7 +86,7 @@ CanSend == ~chclosed /\ (IdleWorkers # {} \/ Len(ch) < MaxQ)
 Deliver(j) ==
   IF IdleWorkers # {}
   THEN \E w \in IdleWorkers : wpc' = [wpc EXCEPT ![w] = "taking"] /\ wjob' = [wjob EXCEPT ![w] = j] /\ ch' = ch
-  ELSE ch' = Append(ch, j) /\ UNCHANGED <<wpc, wjob>>
+  ELSE ch' = Append(ch, j) /\ UNCHANGED <<wpc, wjob, xpc, parentCancelled>>
 SPc(j, from, to) == OK /\ spc[j] = from /\ spc' = [spc EXCEPT ![j] = to]
 TPc(t, from, to) == OK /\ tpc[t] = from /\ tpc' = [tpc EXCEPT ![t] = to]
 RPc(r, from, to) == OK /\ rpc[r] = from /\ rpc' = [rpc EXCEPT ![r] = to]
@@ -92,111 +95,119 @@ FPc(from, to) == OK /\ fpc = from /\ fpc' = to
 
 (* ================= Send (send.go, lazy_send.go) ================= *)
 (* observations *)
-OSendEnter(j)   == SPc(j, "idle", "enter") /\ (Ordered => \A i \in Jobs : i < j => spc[i] # "idle") /\ UNCHANGED <<pool, fpc, fjob, wpc, wjob, tpc, rpc, ghost>>
-OSendCheck(j)   == SPc(j, "added", "check")  /\ UNCHANGED <<pool, fpc, fjob, wpc, wjob, tpc, rpc, ghost>>
-OSendDirect(j)  == SPc(j, "put", "direct")   /\ UNCHANGED <<pool, fpc, fjob, wpc, wjob, tpc, rpc, ghost>>
+OSendEnter(j)   == SPc(j, "idle", "enter") /\ (Ordered => \A i \in Jobs : i < j => spc[i] # "idle") /\ UNCHANGED <<pool, fpc, fjob, wpc, wjob, tpc, rpc, ghost, xpc, parentCancelled>>
+OSendCheck(j)   == SPc(j, "added", "check")  /\ UNCHANGED <<pool, fpc, fjob, wpc, wjob, tpc, rpc, ghost, xpc, parentCancelled>>
+OSendDirect(j)  == SPc(j, "put", "direct")   /\ UNCHANGED <<pool, fpc, fjob, wpc, wjob, tpc, rpc, ghost, xpc, parentCancelled>>
 (* the timer of the select fired: the channel stayed full for SendDuration, or this goroutine was not scheduled *)
 (* for that long although the channel had room (both cases of the select ready: Go picks either)             *)
 OSendTimeout(j) == SPc(j, "check", "timeout") /\ ~ctxnil /\ ~cancelled /\ (SpuriousTimeout \/ ~CanSend)
-                   /\ UNCHANGED <<pool, fpc, fjob, wpc, wjob, tpc, rpc, ghost>>
-OLazyPushed(j)  == SPc(j, "pushing", "pushed") /\ UNCHANGED <<pool, fpc, fjob, wpc, wjob, tpc, rpc, ghost>>
+                   /\ UNCHANGED <<pool, fpc, fjob, wpc, wjob, tpc, rpc, ghost, xpc, parentCancelled>>
+OLazyPushed(j)  == SPc(j, "pushing", "pushed") /\ UNCHANGED <<pool, fpc, fjob, wpc, wjob, tpc, rpc, ghost, xpc, parentCancelled>>
 (* the try-lock failed: somebody held it when this sender tried *)
-OLazyTryFail(j) == SPc(j, "pushed", "tryfail") /\ lazyM /\ UNCHANGED <<pool, fpc, fjob, wpc, wjob, tpc, rpc, ghost>>
-OSendDone(j)    == SPc(j, "ret", "done")     /\ UNCHANGED <<pool, fpc, fjob, wpc, wjob, tpc, rpc, ghost>>
+OLazyTryFail(j) == SPc(j, "pushed", "tryfail") /\ lazyM /\ UNCHANGED <<pool, fpc, fjob, wpc, wjob, tpc, rpc, ghost, xpc, parentCancelled>>
+OSendDone(j)    == SPc(j, "ret", "done")     /\ UNCHANGED <<pool, fpc, fjob, wpc, wjob, tpc, rpc, ghost, xpc, parentCancelled>>
 (* effects *)
 ESendAdd(j) == SPc(j, "enter", "added") /\ sendWg' = sendWg + 1
-               /\ UNCHANGED <<running, ctxnil, cancelled, chclosed, ch, el, listM, lazyM, runWg, fpc, fjob, wpc, wjob, tpc, rpc, ghost, stopM>>
+               /\ UNCHANGED <<running, ctxnil, cancelled, chclosed, ch, el, listM, lazyM, runWg, fpc, fjob, wpc, wjob, tpc, rpc, ghost, stopM, xpc, parentCancelled>>
 (* the pool does not run (never started, or stopping): the job is dropped *)
 ESendCancelled(j) == SPc(j, "check", "ret") /\ (ctxnil \/ cancelled) /\ sendWg' = sendWg - 1
-                     /\ UNCHANGED <<running, ctxnil, cancelled, chclosed, ch, el, listM, lazyM, runWg, fpc, fjob, wpc, wjob, tpc, rpc, ghost, stopM>>
+                     /\ UNCHANGED <<running, ctxnil, cancelled, chclosed, ch, el, listM, lazyM, runWg, fpc, fjob, wpc, wjob, tpc, rpc, ghost, stopM, xpc, parentCancelled>>
 ESendPut(j) == SPc(j, "check", "put") /\ ~ctxnil /\ ~cancelled /\ CanSend
                /\ Deliver(j) /\ accepted' = accepted \cup {j}
-               /\ UNCHANGED <<running, ctxnil, cancelled, chclosed, el, listM, lazyM, sendWg, runWg, fpc, fjob, tpc, rpc, started, executed, stopped, inflightAtStop, lateStart, panicked, stopM>>
+               /\ UNCHANGED <<running, ctxnil, cancelled, chclosed, el, listM, lazyM, sendWg, runWg, fpc, fjob, tpc, rpc, started, executed, stopped, inflightAtStop, lateStart, panicked, stopM, xpc, parentCancelled>>
 ESendRet(j) == SPc(j, "direct", "ret") /\ sendWg' = sendWg - 1
-               /\ UNCHANGED <<running, ctxnil, cancelled, chclosed, ch, el, listM, lazyM, runWg, fpc, fjob, wpc, wjob, tpc, rpc, ghost, stopM>>
+               /\ UNCHANGED <<running, ctxnil, cancelled, chclosed, ch, el, listM, lazyM, runWg, fpc, fjob, wpc, wjob, tpc, rpc, ghost, stopM, xpc, parentCancelled>>
 ELazyPush(j) == SPc(j, "timeout", "pushing") /\ listM = 0 /\ listM' = j /\ el' = Append(el, j) /\ accepted' = accepted \cup {j}
-                /\ UNCHANGED <<running, ctxnil, cancelled, chclosed, ch, lazyM, sendWg, runWg, fpc, fjob, wpc, wjob, tpc, rpc, started, executed, stopped, inflightAtStop, lateStart, panicked, stopM>>
+                /\ UNCHANGED <<running, ctxnil, cancelled, chclosed, ch, lazyM, sendWg, runWg, fpc, fjob, wpc, wjob, tpc, rpc, started, executed, stopped, inflightAtStop, lateStart, panicked, stopM, xpc, parentCancelled>>
 (* lazyResend: the try-lock succeeds, a flusher goroutine is started (sendWg +1 for it) *)
 ELazyTryOk(j) == SPc(j, "pushed", "tryok") /\ ~lazyM /\ lazyM' = TRUE /\ fpc = "none" /\ fpc' = "starting" /\ sendWg' = sendWg + 1
-                 /\ UNCHANGED <<running, ctxnil, cancelled, chclosed, ch, el, listM, runWg, fjob, wpc, wjob, tpc, rpc, ghost, stopM>>
+                 /\ UNCHANGED <<running, ctxnil, cancelled, chclosed, ch, el, listM, runWg, fjob, wpc, wjob, tpc, rpc, ghost, stopM, xpc, parentCancelled>>
 ELazyRet(j) == OK /\ spc[j] \in {"tryok", "tryfail"} /\ spc' = [spc EXCEPT ![j] = "ret"] /\ listM' = 0 /\ sendWg' = sendWg - 1
-               /\ UNCHANGED <<running, ctxnil, cancelled, chclosed, ch, el, lazyM, runWg, fpc, fjob, wpc, wjob, tpc, rpc, ghost, stopM>>
+               /\ UNCHANGED <<running, ctxnil, cancelled, chclosed, ch, el, lazyM, runWg, fpc, fjob, wpc, wjob, tpc, rpc, ghost, stopM, xpc, parentCancelled>>
 
 (* ================= the flusher (lazy_send.go) ================= *)
-OFlusherLoop   == OK /\ fpc \in {"starting", "sent"} /\ fpc' = "loop" /\ UNCHANGED <<pool, spc, fjob, wpc, wjob, tpc, rpc, ghost>>
-OFlusherPopped == FPc("popping", "popped") /\ UNCHANGED <<pool, spc, fjob, wpc, wjob, tpc, rpc, ghost>>
-OFlusherSent   == FPc("put", "sent") /\ UNCHANGED <<pool, spc, fjob, wpc, wjob, tpc, rpc, ghost>>
+OFlusherLoop   == OK /\ fpc \in {"starting", "sent"} /\ fpc' = "loop" /\ UNCHANGED <<pool, spc, fjob, wpc, wjob, tpc, rpc, ghost, xpc, parentCancelled>>
+OFlusherPopped == FPc("popping", "popped") /\ UNCHANGED <<pool, spc, fjob, wpc, wjob, tpc, rpc, ghost, xpc, parentCancelled>>
+OFlusherSent   == FPc("put", "sent") /\ UNCHANGED <<pool, spc, fjob, wpc, wjob, tpc, rpc, ghost, xpc, parentCancelled>>
 (* it leaves: nothing popped, or cancelled while holding a job (the job is dropped: the pool is stopping) *)
-OFlusherExit   == FPc("leaving", "exitgate") /\ UNCHANGED <<pool, spc, fjob, wpc, wjob, tpc, rpc, ghost>>
+OFlusherExit   == FPc("leaving", "exitgate") /\ UNCHANGED <<pool, spc, fjob, wpc, wjob, tpc, rpc, ghost, xpc, parentCancelled>>
 EFlusherPop == FPc("loop", "popping") /\ listM = 0
                /\ (IF el = <<>> THEN fjob' = 0 /\ el' = el ELSE fjob' = Last(el) /\ el' = Front(el))
                /\ lazyM' = (IF Variant = "repaired" /\ el = <<>> THEN FALSE ELSE lazyM)
-               /\ UNCHANGED <<running, ctxnil, cancelled, chclosed, ch, listM, sendWg, runWg, spc, wpc, wjob, tpc, rpc, ghost, stopM>>
-EFlusherNothing == FPc("popped", "leaving") /\ fjob = 0 /\ UNCHANGED <<pool, spc, fjob, wpc, wjob, tpc, rpc, ghost>>
+               /\ UNCHANGED <<running, ctxnil, cancelled, chclosed, ch, listM, sendWg, runWg, spc, wpc, wjob, tpc, rpc, ghost, stopM, xpc, parentCancelled>>
+EFlusherNothing == FPc("popped", "leaving") /\ fjob = 0 /\ UNCHANGED <<pool, spc, fjob, wpc, wjob, tpc, rpc, ghost, xpc, parentCancelled>>
 EFlusherCancelled == FPc("popped", "leaving") /\ fjob # 0 /\ cancelled
                      /\ lazyM' = (IF Variant = "repaired" THEN FALSE ELSE lazyM)
-                     /\ UNCHANGED <<running, ctxnil, cancelled, chclosed, ch, el, listM, sendWg, runWg, spc, fjob, wpc, wjob, tpc, rpc, ghost, stopM>>
+                     /\ UNCHANGED <<running, ctxnil, cancelled, chclosed, ch, el, listM, sendWg, runWg, spc, fjob, wpc, wjob, tpc, rpc, ghost, stopM, xpc, parentCancelled>>
 EFlusherPut == FPc("popped", "put") /\ fjob # 0 /\ CanSend /\ Deliver(fjob)
-               /\ UNCHANGED <<running, ctxnil, cancelled, chclosed, el, listM, lazyM, sendWg, runWg, spc, fjob, tpc, rpc, ghost, stopM>>
+               /\ UNCHANGED <<running, ctxnil, cancelled, chclosed, el, listM, lazyM, sendWg, runWg, spc, fjob, tpc, rpc, ghost, stopM, xpc, parentCancelled>>
 (* the deferred function of the flusher *)
 EFlusherGone == FPc("exitgate", "none") /\ sendWg' = sendWg - 1
                 /\ lazyM' = (IF Variant = "repaired" THEN lazyM ELSE FALSE)
-                /\ UNCHANGED <<running, ctxnil, cancelled, chclosed, ch, el, listM, runWg, spc, fjob, wpc, wjob, tpc, rpc, ghost, stopM>>
+                /\ UNCHANGED <<running, ctxnil, cancelled, chclosed, ch, el, listM, runWg, spc, fjob, wpc, wjob, tpc, rpc, ghost, stopM, xpc, parentCancelled>>
 
 (* ================= workers (run.go) ================= *)
-OWorkerRecv(w) == WPc(w, "taking", "recv") /\ UNCHANGED <<pool, spc, fpc, fjob, wjob, tpc, rpc, ghost>>
+OWorkerRecv(w) == WPc(w, "taking", "recv") /\ UNCHANGED <<pool, spc, fpc, fjob, wjob, tpc, rpc, ghost, xpc, parentCancelled>>
 (* the job function has begun *)
 OJobStart(w) == WPc(w, "recv", "running") /\ started' = [started EXCEPT ![wjob[w]] = @ + 1] /\ lateStart' = (lateStart \/ stopped)
-                /\ UNCHANGED <<pool, spc, fpc, fjob, wjob, tpc, rpc, executed, accepted, stopped, inflightAtStop, panicked>>
-OWorkerDone(w) == WPc(w, "finishing", "donegate") /\ UNCHANGED <<pool, spc, fpc, fjob, wjob, tpc, rpc, ghost>>
+                /\ UNCHANGED <<pool, spc, fpc, fjob, wjob, tpc, rpc, executed, accepted, stopped, inflightAtStop, panicked, xpc, parentCancelled>>
+OWorkerDone(w) == WPc(w, "finishing", "donegate") /\ UNCHANGED <<pool, spc, fpc, fjob, wjob, tpc, rpc, ghost, xpc, parentCancelled>>
 EJobEnd(w) == WPc(w, "running", "finishing") /\ executed' = [executed EXCEPT ![wjob[w]] = @ + 1]
-              /\ UNCHANGED <<pool, spc, fpc, fjob, wjob, tpc, rpc, started, accepted, stopped, inflightAtStop, lateStart, panicked>>
+              /\ UNCHANGED <<pool, spc, fpc, fjob, wjob, tpc, rpc, started, accepted, stopped, inflightAtStop, lateStart, panicked, xpc, parentCancelled>>
 (* back to the select: a buffered job is received at once (when the pool is also cancelled Go may pick either case) *)
 EWorkerLoop(w) == /\ OK /\ wpc[w] = "donegate"
                   /\ \/ ch # <<>> /\ ~chclosed /\ wpc' = [wpc EXCEPT ![w] = "taking"] /\ wjob' = [wjob EXCEPT ![w] = Head(ch)] /\ ch' = Tail(ch)
-                     \/ (ch = <<>> \/ cancelled) /\ wpc' = [wpc EXCEPT ![w] = "idle"] /\ UNCHANGED <<ch, wjob>>
-                  /\ UNCHANGED <<running, ctxnil, cancelled, chclosed, el, listM, lazyM, sendWg, runWg, spc, fpc, fjob, tpc, rpc, ghost, stopM>>
+                     \/ (ch = <<>> \/ cancelled) /\ wpc' = [wpc EXCEPT ![w] = "idle"] /\ UNCHANGED <<ch, wjob, xpc, parentCancelled>>
+                  /\ UNCHANGED <<running, ctxnil, cancelled, chclosed, el, listM, lazyM, sendWg, runWg, spc, fpc, fjob, tpc, rpc, ghost, stopM, xpc, parentCancelled>>
 EWorkerExit(w) == WPc(w, "idle", "none") /\ cancelled /\ runWg' = runWg - 1
-                  /\ UNCHANGED <<running, ctxnil, cancelled, chclosed, ch, el, listM, lazyM, sendWg, spc, fpc, fjob, wjob, tpc, rpc, ghost, stopM>>
+                  /\ UNCHANGED <<running, ctxnil, cancelled, chclosed, ch, el, listM, lazyM, sendWg, spc, fpc, fjob, wjob, tpc, rpc, ghost, stopM, xpc, parentCancelled>>
 
 (* ================= Stop (stop.go) ================= *)
-OStopEnter(t)    == TPc(t, "idle", "enter") /\ UNCHANGED <<pool, spc, fpc, fjob, wpc, wjob, rpc, ghost>>
+OStopEnter(t)    == TPc(t, "idle", "enter") /\ UNCHANGED <<pool, spc, fpc, fjob, wpc, wjob, rpc, ghost, xpc, parentCancelled>>
 (* the try-lock failed: the pool runs *)
-OStopCancel(t)   == TPc(t, "locked", "cancel") /\ running /\ UNCHANGED <<pool, spc, fpc, fjob, wpc, wjob, rpc, ghost>>
-OStopWaitSend(t) == TPc(t, "cancelling", "waitSend") /\ UNCHANGED <<pool, spc, fpc, fjob, wpc, wjob, rpc, ghost>>
-OStopWaitRun(t)  == TPc(t, "waitSend", "waitRun") /\ sendWg = 0 /\ UNCHANGED <<pool, spc, fpc, fjob, wpc, wjob, rpc, ghost>>
-OStopClose(t)    == TPc(t, "waitRun", "close") /\ runWg = 0 /\ UNCHANGED <<pool, spc, fpc, fjob, wpc, wjob, rpc, ghost>>
-OStopDone(t)     == TPc(t, "ret", "done") /\ UNCHANGED <<pool, spc, fpc, fjob, wpc, wjob, rpc, ghost>>
+OStopCancel(t)   == TPc(t, "locked", "cancel") /\ running /\ UNCHANGED <<pool, spc, fpc, fjob, wpc, wjob, rpc, ghost, xpc, parentCancelled>>
+OStopWaitSend(t) == TPc(t, "cancelling", "waitSend") /\ UNCHANGED <<pool, spc, fpc, fjob, wpc, wjob, rpc, ghost, xpc, parentCancelled>>
+OStopWaitRun(t)  == TPc(t, "waitSend", "waitRun") /\ sendWg = 0 /\ UNCHANGED <<pool, spc, fpc, fjob, wpc, wjob, rpc, ghost, xpc, parentCancelled>>
+OStopClose(t)    == TPc(t, "waitRun", "close") /\ runWg = 0 /\ UNCHANGED <<pool, spc, fpc, fjob, wpc, wjob, rpc, ghost, xpc, parentCancelled>>
+OStopDone(t)     == TPc(t, "ret", "done") /\ UNCHANGED <<pool, spc, fpc, fjob, wpc, wjob, rpc, ghost, xpc, parentCancelled>>
 (* the try-lock succeeded: "already stopped"; the deferred Unlock releases it again *)
 (* Stop calls are serialised by a mutex of their own *)
 EStopLock(t) == TPc(t, "enter", "locked") /\ stopM = 0 /\ stopM' = t
-                /\ UNCHANGED <<running, ctxnil, cancelled, chclosed, ch, el, listM, lazyM, sendWg, runWg, spc, fpc, fjob, wpc, wjob, rpc, ghost>>
+                /\ UNCHANGED <<running, ctxnil, cancelled, chclosed, ch, el, listM, lazyM, sendWg, runWg, spc, fpc, fjob, wpc, wjob, rpc, ghost, xpc, parentCancelled>>
 EStopNotRunning(t) == TPc(t, "locked", "ret") /\ ~running /\ stopM' = 0
-                      /\ UNCHANGED <<running, ctxnil, cancelled, chclosed, ch, el, listM, lazyM, sendWg, runWg, spc, fpc, fjob, wpc, wjob, rpc, ghost>>
+                      /\ UNCHANGED <<running, ctxnil, cancelled, chclosed, ch, el, listM, lazyM, sendWg, runWg, spc, fpc, fjob, wpc, wjob, rpc, ghost, xpc, parentCancelled>>
 EStopCancel(t) == TPc(t, "cancel", "cancelling") /\ cancelled' = TRUE
-                  /\ UNCHANGED <<running, ctxnil, chclosed, ch, el, listM, lazyM, sendWg, runWg, spc, fpc, fjob, wpc, wjob, rpc, ghost, stopM>>
+                  /\ UNCHANGED <<running, ctxnil, chclosed, ch, el, listM, lazyM, sendWg, runWg, spc, fpc, fjob, wpc, wjob, rpc, ghost, stopM, xpc, parentCancelled>>
 (* close(p.ch); p.el.Clear(); deferred p.runM.Unlock() *)
 EStopClose(t) ==
   /\ OK /\ tpc[t] = "close"
   /\ IF chclosed THEN /\ panicked' = "close of closed channel"
-                      /\ UNCHANGED <<chclosed, el, running, stopped, inflightAtStop, tpc, stopM>>
+                      /\ UNCHANGED <<chclosed, el, running, stopped, inflightAtStop, tpc, stopM, xpc, parentCancelled>>
      ELSE IF ~running THEN /\ panicked' = "unlock of unlocked mutex"
-                           /\ UNCHANGED <<chclosed, el, running, stopped, inflightAtStop, tpc, stopM>>
+                           /\ UNCHANGED <<chclosed, el, running, stopped, inflightAtStop, tpc, stopM, xpc, parentCancelled>>
      ELSE /\ chclosed' = TRUE /\ el' = <<>> /\ running' = FALSE /\ stopped' = TRUE /\ stopM' = 0
           /\ inflightAtStop' = (inflightAtStop \/ \E w \in Workers : wpc[w] \in {"running"})
           /\ tpc' = [tpc EXCEPT ![t] = "ret"] /\ panicked' = panicked
-  /\ UNCHANGED <<ctxnil, cancelled, ch, listM, lazyM, sendWg, runWg, spc, fpc, fjob, wpc, wjob, rpc, started, executed, accepted, lateStart>>
+  /\ UNCHANGED <<ctxnil, cancelled, ch, listM, lazyM, sendWg, runWg, spc, fpc, fjob, wpc, wjob, rpc, started, executed, accepted, lateStart, xpc, parentCancelled>>
 
 (* ================= Run (run.go) ================= *)
-ORunEnter(r) == RPc(r, "idle", "enter") /\ UNCHANGED <<pool, spc, fpc, fjob, wpc, wjob, tpc, ghost>>
-ORunDone(r)  == RPc(r, "ret", "done") /\ UNCHANGED <<pool, spc, fpc, fjob, wpc, wjob, tpc, ghost>>
-ERunAlready(r) == RPc(r, "enter", "ret") /\ running /\ UNCHANGED <<pool, spc, fpc, fjob, wpc, wjob, tpc, ghost>>
+ORunEnter(r) == RPc(r, "idle", "enter") /\ UNCHANGED <<pool, spc, fpc, fjob, wpc, wjob, tpc, ghost, xpc, parentCancelled>>
+ORunDone(r)  == RPc(r, "ret", "done") /\ UNCHANGED <<pool, spc, fpc, fjob, wpc, wjob, tpc, ghost, xpc, parentCancelled>>
+ERunAlready(r) == RPc(r, "enter", "ret") /\ running /\ UNCHANGED <<pool, spc, fpc, fjob, wpc, wjob, tpc, ghost, xpc, parentCancelled>>
 ERun(r) == RPc(r, "enter", "ret") /\ ~running
-           /\ running' = TRUE /\ ctxnil' = FALSE /\ cancelled' = FALSE /\ chclosed' = FALSE /\ ch' = <<>>
+           /\ running' = TRUE /\ ctxnil' = FALSE /\ cancelled' = parentCancelled /\ chclosed' = FALSE /\ ch' = <<>>
            /\ runWg' = runWg + NWorkers /\ wpc' = [w \in Workers |-> "idle"] /\ stopped' = FALSE
-           /\ UNCHANGED <<el, listM, lazyM, sendWg, spc, fpc, fjob, wjob, tpc, started, executed, accepted, inflightAtStop, lateStart, panicked, stopM>>
+           /\ UNCHANGED <<el, listM, lazyM, sendWg, spc, fpc, fjob, wjob, tpc, started, executed, accepted, inflightAtStop, lateStart, panicked, stopM, xpc, parentCancelled>>
+
+(* ================= the caller cancels the context it gave to Run ================= *)
+ECancelParent(x) == /\ OK /\ xpc[x] = "idle" /\ xpc' = [xpc EXCEPT ![x] = "ret"] /\ parentCancelled' = TRUE
+                    /\ cancelled' = (IF ctxnil THEN cancelled ELSE TRUE)
+                    /\ UNCHANGED <<running, ctxnil, chclosed, ch, el, listM, lazyM, stopM, sendWg, runWg, spc, fpc, fjob, wpc, wjob, tpc, rpc, ghost>>
+OCancelDone(x) == /\ OK /\ xpc[x] = "ret" /\ xpc' = [xpc EXCEPT ![x] = "done"]
+                  /\ UNCHANGED <<pool, spc, fpc, fjob, wpc, wjob, tpc, rpc, parentCancelled, ghost>>
 
 Effects ==
+  \/ \E x \in Cancellers : ECancelParent(x)
   \/ \E j \in Jobs : ESendAdd(j) \/ ESendCancelled(j) \/ ESendPut(j) \/ ESendRet(j) \/ ELazyPush(j) \/ ELazyTryOk(j) \/ ELazyRet(j)
   \/ EFlusherPop \/ EFlusherNothing \/ EFlusherCancelled \/ EFlusherPut \/ EFlusherGone
   \/ \E w \in Workers : EJobEnd(w) \/ EWorkerLoop(w) \/ EWorkerExit(w)
@@ -217,6 +228,7 @@ Next ==
   \/ \E w \in Workers : WorkerSteps(w)
   \/ \E t \in Stoppers : StopperSteps(t)
   \/ \E r \in Runners : RunnerSteps(r)
+  \/ \E x \in Cancellers : ECancelParent(x) \/ OCancelDone(x)
 
 (* fairness: every goroutine of the code keeps running once it exists (a Send in progress is a goroutine too; *)
 (* whether a caller starts a Send, a Stop or a Run at all is not subject to fairness)                          *)
@@ -234,9 +246,9 @@ NoStartAfterStop == ~lateStart
 StopWaitsForJobs == ~inflightAtStop
 (* the same as a safety property: no state in which a job sits in the deferred list although no flusher exists *)
 (* and no Send is in progress (nothing but a further Send would ever move it)                                 *)
-NoStrandedJob == ~(Stoppers = {} /\ el # <<>> /\ fpc = "none" /\ \A j \in Jobs : spc[j] \in {"idle", "done"})
+NoStrandedJob == ~(Stoppers = {} /\ Cancellers = {} /\ el # <<>> /\ fpc = "none" /\ \A j \in Jobs : spc[j] \in {"idle", "done"})
 (* every job accepted by a running pool that nobody stops is executed, without any further Send *)
-EveryJobRuns == (Stoppers = {}) => \A j \in Jobs : [](j \in accepted => <>(executed[j] = 1))
+EveryJobRuns == (Stoppers = {} /\ Cancellers = {}) => \A j \in Jobs : [](j \in accepted => <>(executed[j] = 1))
 (* a Send call always returns *)
-SendReturns == (Stoppers = {}) => \A j \in Jobs : [](spc[j] # "idle" => <>(spc[j] = "done" \/ panicked # ""))
+SendReturns == (Stoppers = {} /\ Cancellers = {}) => \A j \in Jobs : [](spc[j] # "idle" => <>(spc[j] = "done" \/ panicked # ""))
 =============================================================================
